@@ -40,12 +40,12 @@ Definition readonly_mask : Z := 1603.
 (* mem/file.go FileInfo.Size of a directory *)
 Definition dir_size : Z := 42.
 (* regexpfs.go OpenFile: 1 iff the returned file is wrapped in a RegexpFile (filtered listings) *)
-Definition regexp_openfile_wraps : Z := 0.
+Definition regexp_openfile_wraps : Z := 1.
 (* copyOnWriteFs.go OpenFile: write path iff flag&MASK != 0 *)
 Definition cow_mask : Z := 1603.
 (* cacheOnReadFs.go OpenFile: union handle over both layers iff flag&MASK != 0 *)
 Definition cache_mask : Z := 1603.
 (* unionFile.go ReadAt: 1 iff it seeks the base handle after reading the layer *)
-Definition union_readat_seeks_base : Z := 1.
+Definition union_readat_seeks_base : Z := 0.
 (* unionFile.go Readdir(c<=0): 1 iff the call advances the offset to the end of the listing *)
 Definition union_readdir_all_advances : Z := 1.
